@@ -18,6 +18,7 @@
 import AHP.Lemmas.Format
 import AHP.Lemmas.FormatLexMini
 import AHP.Lemmas.FormatLexExact
+import AHP.Lemmas.FormatLexConv
 namespace AHP.C11
 open AHP AHP.Fmt
 -- the lexer's side (namespace `AHP`) has declarations with the same short names as the formatter model
@@ -263,6 +264,101 @@ theorem formatter_roundtrip_strict (cfg : Cfg) (hi : IndentWS cfg) (dt : Option 
   have hp := plain_feed_strictToks dt hdt n st sc kids hs
   exact formatter_output_reparses cfg hi _ hnw _ hp n st sc kids rfl (fun e => absurd e hn) hs hdt
 
+/-! #### C11c — `getFormattedHTML` / `getMiniHTML` = formatter ∘ `getHTML` (a composition through text) -/
+
+/-- `AdvancedHTMLParser.getFormattedHTML(indent)` / `.getMiniHTML()` as the code has them (Parser.py):
+    `html = self.getHTML()`; a fresh formatter of the class in question is fed `html` — i.e. the text is tokenised
+    again —; `formatter.getHTML()`.  The tokenizer in between is the strict lexer of C01: `none` = the text of `getHTML()`
+    is outside its domain (never for strict documents: `getFormattedHTML_is_format_of_getHTML`); a `getHTML()` that raises
+    (nothing parsed) raises here too. -/
+def viaGetHTML (cfg : Cfg) (toks : List Tok) : Option (Except Err Str) :=
+  match Plain.html toks with
+  | .error e => some (.error e)
+  | .ok html => (lexStrict html).map (fun ts => format cfg (ts.map Tok.ofToken))
+
+/-- `parser.getFormattedHTML(indent)`: `AdvancedHTMLFormatter(indent, None)` -/
+def getFormattedHTML (ind : IndentArg) (toks : List Tok) : Option (Except Err Str) :=
+  viaGetHTML (mkCfg .pretty ind false) toks
+/-- `parser.getMiniHTML()`: `AdvancedHTMLMiniFormatter(None)` -/
+def getMiniHTML (toks : List Tok) : Option (Except Err Str) := viaGetHTML (mkCfg .mini .dflt false) toks
+
+/-- **C11c.**  Any formatter class; any token sequence whose plain-parser tree is a strict document `u` (single- or
+    multi-root) without the reserved name below the root.  Then `getHTML()` returns a text `html` that the strict lexer
+    reads back (`toks'` = the tokens of `u` with adjacent data blocks glued; C01), the convenience method **is the
+    formatter applied to those tokens**, and those tokens are again a document of the class all C11/C12 statements are
+    about: they do not start the reserved name, the plain parser builds from them `reparsed` — `u` with adjacent data
+    blocks joined (multi-root: the line break after the doctype line becomes text of the wrapper) — with the same
+    doctype, strict again, and with the same `pskel` as `u`. -/
+theorem getFormattedHTML_is_format_of_getHTML (cfg : Cfg) (toks : List Tok) (ps : St) (hp : Plain.feed toks = .ok ps)
+    (n : Str) (st : AStore) (sc : Bool) (kids : List FNode)
+    (hroot : ps.root = some (FNode.elem n st sc kids).toNode) (hw : WrapperOK n st sc kids)
+    (hs : (FNode.elem n st sc kids).Strict) (hdt : DtOK ps.doctype) (hnw : NoWrapperL (plainBlocks n st sc kids)) :
+    ∃ html toks', Plain.html toks = .ok html ∧ lexStrict html = some toks' ∧
+      viaGetHTML cfg toks = some (format cfg (toks'.map Tok.ofToken)) ∧
+      NoWrapperStart (toks'.map Tok.ofToken) ∧
+      Plain.feed (toks'.map Tok.ofToken)
+        = .ok ⟨[], some (reparsed ps.doctype n st sc kids).toNode, ps.doctype, 0, 0⟩ ∧
+      (reparsed ps.doctype n st sc kids).Strict ∧
+      pskel (reparsed ps.doctype n st sc kids).toNode = pskel (FNode.elem n st sc kids).toNode := by
+  have hhtml : Plain.html toks = .ok (renderToksY TagStyle.normal (htmlToks ps.doctype n st sc kids)) := by
+    simp only [Plain.html, hp, hroot]
+    exact plain_html_text ps.doctype n st sc kids hw
+  have hlex := plain_html_lex ps.doctype hdt n st sc kids hs
+  refine ⟨_, _, hhtml, hlex, ?_, nw_htmlToks ps.doctype n st sc kids hs hnw,
+    plain_html_reparse ps.doctype hdt n st sc kids hw hs, reparsed_strict ps.doctype n st sc kids hw hs,
+    pskel_reparsed ps.doctype n st sc kids hw⟩
+  simp [viaGetHTML, hhtml, hlex]
+
+/-- **C11c + C11a/b: the convenience methods preserve the document.**  Same hypotheses, indent unit of spaces/tabs: the
+    method returns a text; that text lexes and the plain parser builds from it a document with the same doctype and the
+    same `pskel` as the parser's own tree (`formatter_output_reparses_exact` composed with the step through `getHTML()`). -/
+theorem getFormattedHTML_preserves_document (cfg : Cfg) (hi : IndentWS cfg) (toks : List Tok) (ps : St)
+    (hp : Plain.feed toks = .ok ps) (n : Str) (st : AStore) (sc : Bool) (kids : List FNode)
+    (hroot : ps.root = some (FNode.elem n st sc kids).toNode) (hw : WrapperOK n st sc kids)
+    (hs : (FNode.elem n st sc kids).Strict) (hdt : DtOK ps.doctype) (hnw : NoWrapperL (plainBlocks n st sc kids)) :
+    ∃ out toks'' ps'', viaGetHTML cfg toks = some (.ok out) ∧ lexStrict out = some toks'' ∧
+      Plain.feed (toks''.map Tok.ofToken) = .ok ps'' ∧ ps''.doctype = ps.doctype ∧
+      ps''.root.map pskel = ps.root.map pskel := by
+  obtain ⟨html, toks', _, _, hvia, hnws, hfeed, hstrict, hpsk⟩ :=
+    getFormattedHTML_is_format_of_getHTML cfg toks ps hp n st sc kids hroot hw hs hdt hnw
+  have hwOK := reparsed_wrapperOK ps.doctype n st sc kids hw
+  by_cases hn : n = wrapper
+  · obtain ⟨e, hw'⟩ := hwOK.1 hn
+    rw [e] at hfeed hstrict hpsk
+    obtain ⟨out, t2, ps2, h1, h2, h3, h4, h5⟩ := formatter_output_reparses_exact cfg hi _ hnws _ hfeed _ _ _ _ rfl hw'
+      hstrict hdt
+    refine ⟨out, t2, ps2, by rw [hvia, h1], h2, h3, h4, ?_⟩
+    rw [h5, hroot]
+    simp only [St.root, rootOfStack, Option.map_some, hpsk]
+  · obtain ⟨e, hw'⟩ := hwOK.2 hn
+    rw [e] at hfeed hstrict hpsk
+    obtain ⟨out, t2, ps2, h1, h2, h3, h4, h5⟩ := formatter_output_reparses_exact cfg hi _ hnws _ hfeed _ _ _ _ rfl hw'
+      hstrict hdt
+    refine ⟨out, t2, ps2, by rw [hvia, h1], h2, h3, h4, ?_⟩
+    rw [h5, hroot]
+    simp only [St.root, rootOfStack, Option.map_some, hpsk]
+
+/-- For a single-root strict document without adjacent data blocks (`Glued`: what every parse of strict text gives) the
+    step through `getHTML()` changes nothing: the convenience method returns exactly what the formatter returns on the
+    original token sequence. -/
+theorem getFormattedHTML_eq_format_glued (cfg : Cfg) (toks : List Tok) (hnwt : NoWrapperStart toks) (ps : St)
+    (hp : Plain.feed toks = .ok ps) (n : Str) (st : AStore) (sc : Bool) (kids : List FNode)
+    (hroot : ps.root = some (FNode.elem n st sc kids).toNode) (hn : n ≠ wrapper)
+    (hs : (FNode.elem n st sc kids).Strict) (hg : (FNode.elem n st sc kids).Glued) (hdt : DtOK ps.doctype)
+    (hnw : (FNode.elem n st sc kids).NoWrapper) :
+    viaGetHTML cfg toks = some (format cfg toks) := by
+  have hw : WrapperOK n st sc kids := fun e => absurd e hn
+  have hnw' : NoWrapperL (plainBlocks n st sc kids) := by
+    simp only [plainBlocks, hn, if_false, NoWrapperL]
+    exact ⟨hnw, trivial⟩
+  obtain ⟨html, toks', _, _, hvia, hnws, hfeed, _, _⟩ :=
+    getFormattedHTML_is_format_of_getHTML cfg toks ps hp n st sc kids hroot hw hs hdt hnw'
+  have hre : reparsed ps.doctype n st sc kids = .elem n st sc kids := by
+    simp only [FNode.Glued] at hg
+    simp only [reparsed, hn, if_false, mergeL_glued kids hg.1 hg.2]
+  rw [hre] at hfeed
+  rw [hvia, format_text cfg _ hnws _ hfeed n st sc kids rfl hw hs, format_text cfg toks hnwt ps hp n st sc kids hroot hw hs]
+
 /-! #### C12c at string level (stated here: the lexer bridge lives with C11; `Props/C12.lean` lists it as partial) -/
 
 /-- **mini² = mini on text.**  Mini class (normal or slim elements), any doctype, any strict single-root document
@@ -408,6 +504,28 @@ example : cskel preA = cskel preB ∧ pskel preA ≠ pskel preB := by
   · simp only [preA, preB, pskel, pskelAt, pskelAtL, e3, e4, e5, Bool.and_false, Bool.false_eq_true, if_false,
       Bool.or_true, if_true, Bool.not_false, Bool.true_or]
     simp [canon, canonL, pushText, str]
+/-- C11c on `sampleToks` (single root, no adjacent data blocks): the convenience method = the formatter on the tokens -/
+example : getFormattedHTML (.str (str "  ")) sampleToks = some (format (mkCfg .pretty (.str (str "  ")) false) sampleToks) :=
+  getFormattedHTML_eq_format_glued _ sampleToks (by decide) ⟨[], some sampleTree.toNode, none, 0, 0⟩ (by rfl) _ _ _ _ rfl
+    (by decide) (by simp only [FNode.Strict, StrictL]; decide)
+    (by simp only [sampleTree, FNode.Glued, GluedL, FNoAdjL, fisDataTok]; decide) trivial
+    (by simp only [sampleTree, FNode.NoWrapper, NoWrapperL]; decide)
+
+/-- C11c on the multi-root document with a doctype (mini class): hypotheses met, and the computed result -/
+example : ∃ out toks'' ps'', getMiniHTML multiToks = some (.ok out) ∧ lexStrict out = some toks'' ∧
+    Plain.feed (toks''.map Tok.ofToken) = .ok ps'' ∧ ps''.doctype = some (str "doctype html") ∧
+    ps''.root.map pskel = some (pskel (FNode.elem wrapper {} false multiKids).toNode) :=
+  getFormattedHTML_preserves_document (mkCfg .mini .dflt false) (by decide) multiToks
+    ⟨[], some (FNode.elem wrapper {} false multiKids).toNode, some (str "doctype html"), 0, 0⟩ (by rfl) _ _ _ _ rfl
+    (by decide) (by simp only [multiKids, FNode.Strict, StrictL]; decide) (by decide)
+    (by simp only [multiKids, plainBlocks, if_true, FNode.NoWrapper, NoWrapperL]; decide)
+
+example : (match getMiniHTML multiToks with
+    | some r => okIs r "<!doctype html>\na <b >x</b>&amp;<br />"
+    | none => false) = true := by decide
+example : (match getFormattedHTML (.int 1) multiToks with
+    | some r => okIs r "<!doctype html>\na \n<b >x\n</b>&amp;\n<br />"
+    | none => false) = true := by decide
 /-- the output texts in question -/
 example : okIs (format (mkCfg .slim (.int 4) true) multiToks)
     "<!doctype html>\na \n<b>x\n</b>&amp;\n<br/>" = true := by decide
@@ -425,9 +543,17 @@ example : okIs (format (mkCfg .pretty .dflt false) rawToks)
     documents with the data singletons `<` / `&` as text blocks are outside (`NotSingleton`: the data rule can strip
     the white space that kept `<` from opening markup, e.g. `<\nabc` → `<abc`, on the real library too).  The
     comparison is by `cskel` (= `skel` + empty data blocks dropped + adjacent data blocks joined), which is what "same
-    text modulo white space" means once the `_indent`s have become text of the document.
-  * C11c (`getFormattedHTML`/`getMiniHTML` = formatter ∘ `getHTML`): these two methods are compositions with the
-    tokenizer in between; checked by the oracle (`convenience`) and the correspondence stream (`via: parser`).
+    text modulo white space" means once the `_indent`s have become text of the document; `…_reparses_exact` compares by
+    the finer `pskel` (pre/code content exact).
+  * C11c (`getFormattedHTML`/`getMiniHTML` = formatter ∘ `getHTML`) is now stated as the composition through text it is
+    in the code (`viaGetHTML`, `getFormattedHTML_is_format_of_getHTML`, `…_preserves_document`,
+    `…_eq_format_glued`) for strict documents.  What remains tie-only there: that the stdlib tokenizer agrees with
+    `lexStrict` on the text of `getHTML()` (C01's tie), documents outside the strict sub-language, and the equality
+    "convenience method = formatter on the original tokens" for multi-root documents and for trees with adjacent data
+    blocks (for the latter it is false in general: the joined piece is squeezed as one) — oracle `convenience`, stream
+    entry `via: parser`.
+  * `pskel` compares script/style content up to its trailing LF/space/tab run; the exact form of what is appended is
+    `script_style_content_reparses` (a line break and spaces/tabs, or nothing).
 -/
 
 /-! #### known finding `C11-singleton-joined` (kept in the model as it is in the code)
